@@ -395,6 +395,37 @@ func (d *Directory) AddFile(f *File) (*File, error) {
 	return f, nil
 }
 
+// Contiguous checks the layout that AddFile relies on. Code that re-emits the
+// members of an existing zip with AddFile must call Next for every member of the
+// input, in order, and then End with the offset at which the retained part of the
+// input stops. Members have to be laid out back to back starting at offset 0,
+// otherwise the running offsets computed by AddFile do not point at the members
+// anymore (e.g. a self-extractor stub or launcher script in front of the zip).
+type Contiguous struct {
+	pos int64
+}
+
+var ErrNotContiguous = errors.New("zip members are not contiguous from the start of the file; refusing to rewrite it")
+
+func (c *Contiguous) Next(f *File) error {
+	size, err := f.GetTotalSize()
+	if err != nil {
+		return err
+	}
+	if int64(f.Offset) != c.pos {
+		return ErrNotContiguous
+	}
+	c.pos += size
+	return nil
+}
+
+func (c *Contiguous) End(offset int64) error {
+	if offset != c.pos {
+		return ErrNotContiguous
+	}
+	return nil
+}
+
 // Get the offset immediately following the last file's contents. This is the
 // same as DirLoc unless there is non-zip data in between.
 func (d *Directory) NextFileOffset() (int64, error) {
